@@ -1,11 +1,11 @@
-(** C19 — whatever the shutdown flags, QUIT is possible in every running position: a message whose DATA was accepted is stored and acknowledged, marked POP3 deletions are applied *)
+(** C19 — whatever the shutdown flags, QUIT is possible in every running position: a message whose DATA was accepted is stored and acknowledged first; a POP3 session in TRANSACTION state enters UPDATE, where removing the marked messages is possible whatever the flags and is what ends the session *)
 From IV Require Import Base.Bytes Model.Lifecycle Proofs.Lifecycle.
 Local Open Scope nat_scope.
 Theorem inflight_completes : forall y i s, find_s i (ss (sv y)) = Some s -> running (ph s) = true ->
-    exists y1, step y (Quit i) = Some y1 /\
-      find_s i (ss (sv y1)) =
-        Some (mkS Ending
-                  (match ph s with SData | SBody => S (stored s) | _ => stored s end)
-                  (match ph s with PDele => 0 | _ => left s end)).
+    exists y1 s1, step y (Quit i) = Some y1 /\ find_s i (ss (sv y1)) = Some s1 /\
+      stored s1 = (match ph s with SData | SBody => S (stored s) | _ => stored s end) /\
+      (ph s1 = Ending \/
+       (ph s1 = PUpdate /\ exists y2 s2, step y1 (Purge i) = Some y2 /\ find_s i (ss (sv y2)) = Some s2 /\
+          ph s2 = Ending /\ left s2 = if marked s then 0 else left s)).
 Proof. exact Lifecycle.inflight_completes. Qed.
 Print Assumptions inflight_completes.
